@@ -238,6 +238,54 @@ func C07(tier string) {
 		r.DistinctN(distinct)
 	})
 
+	// the returned stream handed to a loader again after the caller has read part of
+	// it (skipping a wrapper, or the second of two images stored back to back): the
+	// second loader's stream must replay exactly what the first stream still had
+	{
+		seeds := smallSeeds()
+		var rl int64
+		for si := range seeds {
+			data := seeds[si].Data
+			for _, n := range []int{0, 1, 5, len(data) / 2, len(data)} {
+				for l1 := range loaders {
+					for l2 := range loaders {
+						var got []byte
+						var rerr error
+						pan := ""
+						func() {
+							defer func() {
+								if p := recover(); p != nil {
+									pan = fmt.Sprint(p)
+								}
+							}()
+							_, s1, _ := loaders[l1].Load(bytes.NewReader(data))
+							if s1 == nil {
+								pan = "nil stream from the first load"
+								return
+							}
+							head := make([]byte, n)
+							if _, err := io.ReadFull(s1, head); err != nil || !bytes.Equal(head, data[:n]) {
+								pan = fmt.Sprintf("first stream does not start with the input (err %v)", err)
+								return
+							}
+							_, s2, _ := loaders[l2].Load(s1)
+							if s2 == nil {
+								pan = "nil stream from the second load"
+								return
+							}
+							got, rerr = io.ReadAll(s2)
+						}()
+						rl++
+						if pan != "" || rerr != nil || !bytes.Equal(got, data[n:]) {
+							r.Violate("reload/"+loaders[l2].Name, fmt.Sprintf("%s.Load on the stream returned by %s.Load of %s after the caller read %d bytes of it: the new stream yields %d bytes (err %v, %s), %d were left", loaders[l2].Name, loaders[l1].Name, seeds[si].Name, n, len(got), rerr, pan, len(data)-n), nil, nil)
+						}
+					}
+				}
+			}
+		}
+		r.Eval(rl)
+	}
+
 	// a source that stalls: data stops for a few seconds in the middle of the
 	// metadata and then continues (a pipe, a slow network body). A loader with a
 	// time limit of its own must still hand back a stream that replays everything
